@@ -278,6 +278,93 @@ def run_overlap(ctx: Ctx) -> None:
     _guard(ctx, "T16.tversky-roles", "roles", fT, "tversky alpha/beta roles", roles)
 
 
+def run_target_forms(ctx: Ctx) -> None:
+    """tversky_index / tversky_loss: every documented (input, target) form computes the index of the canonical form."""
+    prog = ctx.prog
+    L = "deepali.losses.functional"
+    fT, fTL = prog.func(L, "tversky_index"), prog.func(L, "tversky_loss")
+    ctx.fn(prog.func("deepali.core.tensor", "as_one_hot_tensor"))
+    ctx.rule("T16.target-forms", "tversky_index / tversky_loss accept the documented forms and compute the same index as the canonical "
+                                 "(N, C) vs (N, C) form: two-channel (background, foreground) prediction with a binary (N, 1) target uses "
+                                 "the foreground channel; binary (N, 1) prediction with a one-hot (N, 2) target uses the foreground target "
+                                 "channel; a label map (N, ...) is one-hot encoded (multi-class) resp. thresholded (binary prediction); "
+                                 "identical segmentations given in different forms score 1")
+    I64 = symt.INT
+
+    def setup():
+        reset_relations()
+        fresh_facts()
+        return make_interp(ctx)
+
+    def two_channel():
+        it = setup()
+        p2 = STensor.symbols("p", [2, 2, 1, 3])
+        y = _binary_shape("y", [2, 1, 1, 3])
+        for f in (fT, fTL):
+            got = it.call(f, p2, y, reduction="none", epsilon=0)
+            want = it.call(f, p2[:, 1:2].clone(), y, reduction="none", epsilon=0)
+            if tuple(got.shape) != tuple(want.shape) or not teq(got, want):
+                return False, f"{f.name}((N,2) prediction, (N,1) target) does not score the foreground channel (index 1) against the target"
+        fg = _binary_shape("y", [2, 1, 1, 3])
+        pred = symt.cat([fg.neg().add(1), fg], 1)
+        s = it.call(fT, pred, fg, reduction="none", epsilon=0)
+        if not all(to_rat(v).equals(1) for v in s.flat()):
+            return False, f"identical segmentations ((bg, fg) prediction vs binary target) score {tstr(s)[:60]} instead of 1"
+        return True, ""
+    _guard(ctx, "T16.target-forms", "two-channel prediction / binary target", fT, "input (N,2,...) target (N,1,...)", two_channel)
+
+    def onehot_target():
+        it = setup()
+        f1 = STensor.symbols("p", [2, 1, 1, 3])
+        y = _binary_shape("y", [2, 1, 1, 3])
+        y2 = symt.cat([y.neg().add(1), y], 1)
+        for f in (fT, fTL):
+            got = it.call(f, f1, y2, reduction="none", epsilon=0)
+            want = it.call(f, f1, y, reduction="none", epsilon=0)
+            if tuple(got.shape) != tuple(want.shape) or not teq(got, want):
+                return False, f"{f.name}((N,1) prediction, one-hot (N,2) target) does not score against the foreground target channel"
+        return True, ""
+    _guard(ctx, "T16.target-forms", "binary prediction / one-hot target", fT, "input (N,1,...) target (N,2,...)", onehot_target)
+
+    def labels_multiclass():
+        it = setup()
+        p3 = STensor.symbols("p", [2, 3, 2, 2])
+        labels = STensor.from_nested([[[0, 1], [2, 1]], [[2, 2], [0, 1]]]).type(I64)
+        onehot = STensor.from_nested([[[[1 if labels[n, y_, x].flat()[0] == c else 0 for x in range(2)] for y_ in range(2)] for c in range(3)]
+                                      for n in range(2)])
+        for f in (fT, fTL):
+            got = it.call(f, p3, labels, reduction="none", epsilon=0)
+            want = it.call(f, p3, onehot, reduction="none", epsilon=0)
+            if tuple(got.shape) != tuple(want.shape) or not teq(got, want):
+                return False, f"{f.name}((N,3) prediction, label map (N,...)) differs from scoring against the one-hot encoding of the labels"
+        s = it.call(fT, onehot.clone(), labels, reduction="none", epsilon=0)
+        if not all(to_rat(v).equals(1) for v in s.flat()):
+            return False, f"identical segmentations (one-hot prediction vs label map) score {tstr(s)[:60]} instead of 1"
+        return True, ""
+    _guard(ctx, "T16.target-forms", "multi-class prediction / label map", fT, "input (N,C,...) target (N,...)", labels_multiclass)
+
+    def labels_binary():
+        it = setup()
+        f1 = STensor.symbols("p", [2, 1, 2, 2])
+        labels = STensor.from_nested([[[0, 1], [1, 1]], [[1, 0], [0, 1]]]).type(I64)
+        yb = labels.unsqueeze(1).type(symt.FLOAT)
+        for f in (fT, fTL):
+            got = it.call(f, f1, labels, reduction="none", epsilon=0)
+            want = it.call(f, f1, yb, reduction="none", epsilon=0)
+            if tuple(got.shape) != tuple(want.shape) or not teq(got, want):
+                return False, f"{f.name}((N,1) prediction, label map (N,...)) differs from scoring against the binary target"
+        return True, ""
+    _guard(ctx, "T16.target-forms", "binary prediction / label map", fT, "input (N,1,...) target (N,...)", labels_binary)
+
+
+def _binary_shape(prefix: str, shape) -> STensor:
+    t = STensor.symbols(prefix, list(shape))
+    for v in t.flat():
+        (a,) = v.num.atoms()
+        declare_square(a, Poly.atom(a))
+    return t
+
+
 def run_definitions(ctx: Ctx) -> None:
     """Values of the basic losses against their definitions (the other rules are relative to the 'none' output)."""
     prog = ctx.prog
@@ -348,6 +435,61 @@ def run_weight_shapes(ctx: Ctx) -> None:
                     return False, f"C={C}: weight shape {desc} differs from the expanded weight"
             return True, ""
         _guard(ctx, "T16.weight-shapes", f"C={C}", fT, f"tversky weight shapes C={C}", th)
+
+
+def run_module_norm(ctx: Ctx) -> None:
+    """NormalizedPairwiseImageLoss(source, target, norm): which factor divides the loss."""
+    prog = ctx.prog
+    LI, LB = "deepali.losses.image", "deepali.losses.base"
+    base = prog.cls(LB, "NormalizedPairwiseImageLoss")
+    fI = prog.find_method(base, "__init__")
+    ctx.fn(fI)
+    ctx.rule("T16.module-norm", "every NormalizedPairwiseImageLoss subclass: norm=None / True with reference images divides by "
+                                "max_difference(source, target)^2 (one image given: used for both); norm=False, or no images, leaves the "
+                                "loss unnormalised; an explicit positive factor k (symbolic, 4, and exactly 1 / 1.0) divides by k whether or "
+                                "not images are given")
+    subs = [ci for _, ci in sorted(prog.module(LI).classes.items()) if base in prog.mro(ci) and ci is not base]
+    if len(subs) < 4:
+        raise AnalysisError(f"only {len(subs)} subclasses of NormalizedPairwiseImageLoss found")
+    src = STensor.from_nested([[[[0, 3], [1, 2]]]]).type(symt.FLOAT)
+    tgt = STensor.from_nested([[[[1, 5], [-1, 2]]]]).type(symt.FLOAT)
+    # max_difference = max(|smax - tmin|, |tmax - smin|) = max(|3 + 1|, |5 - 0|) = 5 -> factor 25; source only: 3 -> 9; target only: 6 -> 36
+    for ci in subs:
+        def th(ci=ci):
+            reset_relations()
+            facts = fresh_facts()
+            it = make_interp(ctx)
+            x = STensor.symbols("x", [1, 1, 2, 2])
+            y = STensor.symbols("y", [1, 1, 2, 2])
+            k = Rat.atom("k")
+            facts.declare_positive(k)
+            plain = it.call_value(it.new(ci, norm=False), [x, y], {})
+            if to_rat(plain.flat()[0]).is_zero():
+                raise AnalysisError(f"{ci.name}: unnormalised loss of symbolic images is identically zero (adaptor)")
+            cases = [
+                ("norm=None, source and target", dict(source=src, target=tgt), 25),
+                ("norm=True, source and target", dict(source=src, target=tgt, norm=True), 25),
+                ("norm=None, source only", dict(source=src), 9),
+                ("norm=None, target only", dict(target=tgt), 36),
+                ("norm=False, source and target", dict(source=src, target=tgt, norm=False), 1),
+                ("no images", dict(), 1),
+                ("norm=True, no images", dict(norm=True), 1),
+                ("norm=k", dict(norm=k), k),
+                ("norm=k, source and target", dict(source=src, target=tgt, norm=k), k),
+                ("norm=4, source and target", dict(source=src, target=tgt, norm=4), 4),
+                ("norm=1 (int), source and target", dict(source=src, target=tgt, norm=1), 1),
+                ("norm=1.0, source and target", dict(source=src, target=tgt, norm=Fraction(1)), 1),
+                ("norm=tensor(1.), source and target", dict(source=src, target=tgt, norm=STensor.from_flat([1], [], symt.FLOAT)), 1),
+                ("norm=tensor(2.), source only", dict(source=src, norm=STensor.from_flat([2], [], symt.FLOAT)), 2),
+            ]
+            for what, kw, factor in cases:
+                m = it.new(ci, **kw)
+                got = it.call_value(m, [x, y], {})
+                want = plain.div(factor)
+                if not teq(got, want):
+                    return False, f"{ci.name}({what}): loss is {tstr(got)[:70]}, expected the unnormalised loss divided by {factor}"
+            return True, ""
+        _guard(ctx, "T16.module-norm", ci.name, fI, f"class={ci.name}", th)
 
 
 def run_module_functional(ctx: Ctx) -> None:
